@@ -34,7 +34,7 @@ structure Matches (r : Row) (c : ACert) : Prop where
   from_ : r.from_ = c.from_
   to_ : r.to_ = c.to_
   new : r.new = c.new
-  prev : r.prev = some c.prev
+  prev : r.prev = some c.prev ∨ r.prev = none
   status : r.status = c.status ∨ r.status.isOpen = true
 
 /-- L2 data as the bridge syncer stores it: events carry their block number; block numbers fit the metadata offset -/
@@ -161,7 +161,10 @@ theorem St.closed_cases (s : St) (h : s.isOpen = false) : s = .settled ∨ s = .
 /-- **what the node builds is what the chain requires** (one step; the induction over histories is in
     `Properties/C02`). -/
 theorem build_spec (size : Params → Nat) (cfg : Cfg) (l2 : List L2Blk) (hw : L2WF l2) (loc : List Row)
-    (agg : List ACert) (hs : SyncUp loc agg) (hl : LastOK cfg agg) (c : ACert) (retry tb : Nat)
+    (agg : List ACert) (hs : SyncUp loc agg) (hl : LastOK cfg agg)
+    (hfb : ∀ r x q, lastRow loc = some r → agg.getLast? = some x → Matches r x →
+      rowAt loc (r.height - 1) = some q → q.status = .settled → r.height ≠ 0 → q.new = x.prev)
+    (c : ACert) (retry tb : Nat)
     (h : build size cfg l2 loc = .cert c retry tb) :
     (c.height, c.prev, c.from_) = expect cfg agg ∧ c.from_ ≤ c.to_ ∧ c.to_ = tb ∧ tb ≤ lastProcessed l2 ∧
     c.bridges = bridgesIn l2 c.from_ c.to_ ∧ c.claims = claimsIn l2 c.from_ c.to_ ∧
@@ -260,8 +263,7 @@ theorem build_spec (size : Params → Nat) (cfg : Cfg) (l2 : List L2Blk) (hw : L
             rw [qfrom, ← hlr.1, ← hn.1, ← hn.2, hm.height, hm.new, hm.to_]
           · -- last certificate in error: same height, same previous exit root, same first block
             have hne : r.status ≠ .settled := by rw [herr]; simp
-            rw [if_neg hne, hm.prev] at hn
-            simp only [Option.some.injEq, Prod.mk.injEq] at hn
+            rw [if_neg hne] at hn
             simp only [lastSentBlockAndRetry, herr, if_true, Prod.mk.injEq] at hlr
             have hr0 : retry0 > 0 := by omega
             have hqr : q.retry = true := by rw [qretry, hlast]; simp [hr0]
@@ -269,7 +271,42 @@ theorem build_spec (size : Params → Nat) (cfg : Cfg) (l2 : List L2Blk) (hw : L
             simp only [Bool.true_and, Option.map_some, ne_eq, Option.some.injEq, decide_not,
               Bool.not_eq_true', decide_eq_false_iff_not, Decidable.not_not] at hretry
             have hxs : x.status ≠ .settled := by rw [← hst]; exact hne
-            rw [hpre, expect_snoc_not cfg pre x hxs, ← hx, hretry, ← hn.1, ← hn.2, hm.height, hm.from_]
+            -- the previous exit root the node uses is the last certificate's
+            have hprev : hh = r.height ∧ pv = x.prev := by
+              cases hp : r.prev with
+              | some p =>
+                rw [hp] at hn
+                simp only [Option.some.injEq, Prod.mk.injEq] at hn
+                rcases hm.prev with e | e
+                · rw [hp] at e; simp only [Option.some.injEq] at e
+                  exact ⟨hn.1.symm, by rw [← hn.2, e]⟩
+                · rw [hp] at e; cases e
+              | none =>
+                rw [hp] at hn
+                simp only at hn
+                by_cases h0 : r.height = 0
+                · rw [if_pos h0] at hn
+                  simp only [Option.some.injEq, Prod.mk.injEq] at hn
+                  -- height 0: there is no settled certificate before it, its previous exit root is the empty tree's
+                  have hx0 : x.height = 0 := by rw [← hm.height]; exact h0
+                  have : x.prev = 0 := by
+                    unfold expect at hx
+                    cases hls : lastSettled pre with
+                    | none => rw [hls] at hx; simp only [Prod.mk.injEq] at hx; exact hx.2.1
+                    | some p0 => rw [hls] at hx; simp only [Prod.mk.injEq] at hx; omega
+                  exact ⟨by rw [← hn.1, h0], by rw [← hn.2, this]⟩
+                · rw [if_neg h0] at hn
+                  cases hq : rowAt loc (r.height - 1) with
+                  | none => rw [hq] at hn; cases hn
+                  | some q0 =>
+                    rw [hq] at hn
+                    simp only at hn
+                    by_cases hqs : q0.status = .settled
+                    · rw [if_pos hqs] at hn
+                      simp only [Option.some.injEq, Prod.mk.injEq] at hn
+                      exact ⟨hn.1.symm, by rw [← hn.2]; exact hfb r x q0 hlast hg hm hq hqs h0⟩
+                    · rw [if_neg hqs] at hn; cases hn
+            rw [hpre, expect_snoc_not cfg pre x hxs, ← hx, hretry, hprev.1, hprev.2, hm.height, hm.from_]
     · intro r hr
       rw [hr] at hn
       simp only [nextHeightPrev] at hn
@@ -307,7 +344,6 @@ def allBridges (l2 : List L2Blk) : List Ev := l2.flatMap (·.bridges)
 def CountOK (l2 : List L2Blk) (c : ACert) : Prop := c.prev = cnt l2 (c.from_ - 1) ∧ c.new = cnt l2 c.to_
 
 structure Inv (s : Sys) : Prop where
-  withPrev : s.cfg.omitPrev = false
   l2wf : L2WF s.l2
   ids : ∀ i (h : i < s.agg.length), (s.agg[i]).id = i + 1
   closedPrefix : ∀ i (h : i < s.agg.length), i + 1 < s.agg.length → (s.agg[i]).status.isOpen = false
@@ -322,8 +358,8 @@ structure Inv (s : Sys) : Prop where
   deposits : (allBridges s.l2).map (·.id) = List.range (allBridges s.l2).length
   counts : ∀ c ∈ s.agg, CountOK s.l2 c
 
-theorem init_inv (cfg : Cfg) (h : cfg.omitPrev = false) : Inv { cfg := cfg } := by
-  refine ⟨h, ?_, ?_, ?_, ?_, ?_, ?_, ?_, ?_, ?_, ?_, ?_, ?_, ?_⟩
+theorem init_inv (cfg : Cfg) : Inv { cfg := cfg } := by
+  refine ⟨?_, ?_, ?_, ?_, ?_, ?_, ?_, ?_, ?_, ?_, ?_, ?_, ?_⟩
   rotate_right 3
   · intro b hb; simp at hb
   · simp [allBridges]
@@ -338,6 +374,60 @@ theorem init_inv (cfg : Cfg) (h : cfg.omitPrev = false) : Inv { cfg := cfg } := 
   · intro _; simp [SyncDown, lastRow]
   · simp
   · intro c hc; simp at hc
+
+
+/-! #### one settled certificate per height -/
+
+theorem take_succ_getElem' (l : List ACert) (i : Nat) (h : i < l.length) : l.take (i + 1) = l.take i ++ [l[i]] := by
+  rw [List.take_add_one, List.getElem?_eq_getElem h]; rfl
+
+theorem settled_heights_agg (cfg : Cfg) (agg : List ACert)
+    (hch : ∀ i (h : i < agg.length), CertOK cfg (agg.take i) agg[i]) : ∀ n, n ≤ agg.length →
+    (expect cfg (agg.take n)).1 = ((agg.take n).filter (·.status = .settled)).length ∧
+    ((agg.take n).filter (·.status = .settled)).map (·.height) =
+      List.range ((agg.take n).filter (·.status = .settled)).length := by
+  intro n
+  induction n with
+  | zero =>
+    intro _
+    simp only [List.take_zero, List.filter_nil, List.length_nil, List.map_nil, List.range_zero, and_true]
+    unfold expect lastSettled; simp
+  | succ n ih =>
+    intro hn
+    have hlt : n < agg.length := by omega
+    obtain ⟨ih1, ih2⟩ := ih (by omega)
+    rw [take_succ_getElem' _ n hlt, List.filter_append]
+    have hpos := (hch n hlt).1
+    by_cases hset : (agg[n]).status = .settled
+    · rw [expect_snoc_settled _ _ _ hset]
+      have hh : (agg[n]).height = (expect cfg (agg.take n)).1 := by rw [← hpos]
+      simp only [List.filter_cons, hset, decide_true, if_true, List.filter_nil, List.length_append,
+        List.length_cons, List.length_nil, List.map_append, List.map_cons, List.map_nil]
+      rw [ih2, hh, ih1, List.range_succ]
+      exact ⟨rfl, rfl⟩
+    · rw [expect_snoc_not _ _ _ hset]
+      simp only [List.filter_cons, hset, decide_false, Bool.false_eq_true, if_false, List.filter_nil, List.append_nil]
+      exact ⟨ih1, ih2⟩
+
+theorem inj_of_map_range {α : Type} (f : α → Nat) (l : List α) (h : l.map f = List.range l.length)
+    (a b : α) (ha : a ∈ l) (hb : b ∈ l) (hab : f a = f b) : a = b := by
+  obtain ⟨i, hi, ea⟩ := List.getElem_of_mem ha
+  obtain ⟨j, hj, eb⟩ := List.getElem_of_mem hb
+  have e1 : (l.map f)[i]'(by simpa using hi) = f a := by simp [ea]
+  have e2 : (l.map f)[j]'(by simpa using hj) = f b := by simp [eb]
+  have r1 : (l.map f)[i]'(by simpa using hi) = i := by simp only [h]; simp
+  have r2 : (l.map f)[j]'(by simpa using hj) = j := by simp only [h]; simp
+  have : i = j := by rw [← r1, ← r2, e1, e2, hab]
+  subst this
+  rw [← ea, ← eb]
+
+theorem settled_unique (cfg : Cfg) (agg : List ACert)
+    (hch : ∀ i (h : i < agg.length), CertOK cfg (agg.take i) agg[i]) (p q : ACert) (hp : p ∈ agg) (hq : q ∈ agg)
+    (sp : p.status = .settled) (sq : q.status = .settled) (hh : p.height = q.height) : p = q := by
+  have h := (settled_heights_agg cfg agg hch agg.length (Nat.le_refl _)).2
+  rw [List.take_length] at h
+  exact inj_of_map_range (·.height) _ h p q (List.mem_filter.mpr ⟨hp, by simpa using sp⟩)
+    (List.mem_filter.mpr ⟨hq, by simpa using sq⟩) hh
 
 /-! #### storage lemmas -/
 
@@ -499,11 +589,11 @@ theorem poll_map (s : Sys) : ∃ f, StatusOnly s.agg f ∧ (poll s).1 = { s with
 
 theorem Inv.of_eq {s s' : Sys} (hi : Inv s) (h1 : s'.cfg = s.cfg) (h2 : s'.l2 = s.l2) (h3 : s'.agg = s.agg)
     (h4 : s'.loc = s.loc) (h5 : s'.up = s.up) : Inv s' := by
-  obtain ⟨a1, a2, a3, a4, a5, a6, a7, a8, a9, a10, a11, a12, a13, a14⟩ := hi
+  obtain ⟨a2, a3, a4, a5, a6, a7, a8, a9, a10, a11, a12, a13, a14⟩ := hi
   cases s; cases s'
   simp only at h1 h2 h3 h4 h5
   subst h1 h2 h3 h4 h5
-  exact ⟨a1, a2, a3, a4, a5, a6, a7, a8, a9, a10, a11, a12, a13, a14⟩
+  exact ⟨a2, a3, a4, a5, a6, a7, a8, a9, a10, a11, a12, a13, a14⟩
 
 theorem statusOnly_fields (agg : List ACert) (f : Row → Row) (hf : StatusOnly agg f) (r : Row) :
     (f r).id = r.id ∧ (f r).height = r.height := by
@@ -524,7 +614,7 @@ theorem lastRow_map (loc : List Row) (f : Row → Row) : lastRow (loc.map f) = (
 /-- refreshing statuses keeps the invariant -/
 theorem inv_map_loc (s : Sys) (hi : Inv s) (f : Row → Row) (hf : StatusOnly s.agg f) :
     Inv { s with loc := s.loc.map f } := by
-  refine ⟨hi.withPrev, hi.l2wf, hi.ids, hi.closedPrefix, hi.chain, ?_, ?_, ?_, ?_, hi.l2sorted, hi.content, hi.startOK, hi.deposits, hi.counts⟩
+  refine ⟨hi.l2wf, hi.ids, hi.closedPrefix, hi.chain, ?_, ?_, ?_, ?_, hi.l2sorted, hi.content, hi.startOK, hi.deposits, hi.counts⟩
   · simp only
     rw [List.pairwise_map]
     refine hi.sorted.imp ?_
@@ -818,6 +908,41 @@ theorem inv_lastOK (s : Sys) (hi : Inv s) : LastOK s.cfg s.agg := by
   have := (hi.chain pre.length hidx).1
   simpa [hpre] using this
 
+/-- the fallback of `getNextHeightAndPreviousLER` for a record without previous exit root: the settled record one height
+    below carries the previous exit root of the last certificate -/
+theorem inv_fallback (s : Sys) (hi : Inv s) : ∀ (r : Row) (x : ACert) (q : Row), lastRow s.loc = some r →
+    s.agg.getLast? = some x → Matches r x → rowAt s.loc (r.height - 1) = some q → q.status = .settled → r.height ≠ 0 →
+    q.new = x.prev := by
+  intro r x q _ hg hm hq hqs h0
+  have hqmem : q ∈ s.loc := List.mem_of_find?_eq_some hq
+  have hqh : q.height = r.height - 1 := by
+    have := List.find?_some hq; simpa using this
+  obtain ⟨cq, hcq, hmq⟩ := hi.rows q hqmem
+  have hcqs : cq.status = .settled := by
+    rcases hmq.status with e | e
+    · rw [← e]; exact hqs
+    · rw [hqs] at e; simp [St.isOpen] at e
+  obtain ⟨i, hi', ecq, _⟩ := certById_mem s.agg q.id cq hcq
+  have hcqmem : cq ∈ s.agg := by rw [← ecq]; exact List.getElem_mem hi'
+  obtain ⟨pre, hpre⟩ := List.getLast?_eq_some_iff.mp hg
+  have hx := (inv_lastOK s hi) pre x hpre
+  have hxh : x.height ≠ 0 := by rw [← hm.height]; exact h0
+  unfold expect at hx
+  cases hls : lastSettled pre with
+  | none => rw [hls] at hx; simp only [Prod.mk.injEq] at hx; exact absurd hx.1 hxh
+  | some p =>
+    rw [hls] at hx
+    simp only [Prod.mk.injEq] at hx
+    have hpmem : p ∈ s.agg := by
+      rw [hpre]; exact List.mem_append_left _ (mem_lastSettled pre p hls)
+    have hps : p.status = .settled := by
+      unfold lastSettled at hls
+      have := (List.mem_filter.mp (List.mem_of_getLast? hls)).2
+      simpa using this
+    have hh : p.height = cq.height := by rw [← hmq.height, hqh, hm.height]; omega
+    have := settled_unique s.cfg s.agg hi.chain p cq hpmem hcqmem hps hcqs hh
+    rw [hmq.new, ← this, hx.2.1]
+
 theorem send_inv (size : Params → Nat) (s : Sys) (hi : Inv s) (hup : s.up = true) (crash : Bool) :
     Inv (send size s crash).1 := by
   unfold send
@@ -832,7 +957,7 @@ theorem send_inv (size : Params → Nat) (s : Sys) (hi : Inv s) (hup : s.up = tr
     have hsync := hi.syncUp hup
     have hlast := inv_lastOK s hi
     obtain ⟨b1, b2, b3, b4, b5, b6, b7, b8, b9⟩ :=
-      build_spec size s.cfg s.l2 hi.l2wf s.loc s.agg hsync hlast c retry tb hb
+      build_spec size s.cfg s.l2 hi.l2wf s.loc s.agg hsync hlast (inv_fallback s hi) c retry tb hb
     have hcnts : ∀ x ∈ s.agg ++ [{ c with id := s.agg.length + 1 }], CountOK s.l2 x := by
       intro x hx
       rcases List.mem_append.mp hx with h | h
@@ -877,7 +1002,7 @@ theorem send_inv (size : Params → Nat) (s : Sys) (hi : Inv s) (hup : s.up = tr
     by_cases hcr : crash = true
     · -- the process dies between the submission and the local write
       rw [if_pos hcr]
-      refine ⟨hi.withPrev, hi.l2wf, g1, g2, g3, hi.sorted, hrowsOld, fun h => by simp at h, ?_, hi.l2sorted, hcont, hi.startOK, hi.deposits, hcnts⟩
+      refine ⟨hi.l2wf, g1, g2, g3, hi.sorted, hrowsOld, fun h => by simp at h, ?_, hi.l2sorted, hcont, hi.startOK, hi.deposits, hcnts⟩
       intro _
       unfold SyncDown
       simp only
@@ -918,20 +1043,20 @@ theorem send_inv (size : Params → Nat) (s : Sys) (hi : Inv s) (hup : s.up = tr
             simp only at h2
             rw [hm.height] at h1
             omega
-      refine ⟨hi.withPrev, hi.l2wf, g1, g2, g3, saveRow_sorted _ _ hi.sorted, ?_, ?_, fun h => by simp [hup] at h,
+      refine ⟨hi.l2wf, g1, g2, g3, saveRow_sorted _ _ hi.sorted, ?_, ?_, fun h => by simp [hup] at h,
         hi.l2sorted, hcont, hi.startOK, hi.deposits, hcnts⟩
       · intro r hr
         rcases mem_saveRow _ _ _ hr with e | hr
         · subst e
           refine ⟨{ c with id := s.agg.length + 1 }, by simp only [rowOfCert]; exact certById_new _ _, ?_⟩
-          exact ⟨rfl, rfl, rfl, b3.symm, rfl, rfl, Or.inl (by simp only [rowOfCert]; exact b8.symm)⟩
+          exact ⟨rfl, rfl, rfl, b3.symm, rfl, Or.inl rfl, Or.inl (by simp only [rowOfCert]; exact b8.symm)⟩
         · exact hrowsOld r hr
       · intro _
         unfold SyncUp
         simp only
         rw [saveRow_last _ _ hle]
         simp only [List.getLast?_append, List.getLast?_singleton, Option.some_or]
-        exact ⟨rfl, rfl, rfl, b3.symm, rfl, rfl, Or.inl (by simp only [rowOfCert]; exact b8.symm)⟩
+        exact ⟨rfl, rfl, rfl, b3.symm, rfl, Or.inl rfl, Or.inl (by simp only [rowOfCert]; exact b8.symm)⟩
 
 theorem tick_inv (size : Params → Nat) (s : Sys) (hi : Inv s) (epoch crash : Bool) :
     Inv (tick size s epoch crash).1 := by
@@ -1005,7 +1130,7 @@ theorem move_inv (s : Sys) (hi : Inv s) (id : Nat) (st : St) : Inv { s with agg 
     have : (s.agg.take i)[j] = s.agg[j] := by simp
     rw [← e, this]
     exact mv_closed _ _ _ (hi.closedPrefix j hj2 (by omega))
-  refine ⟨hi.withPrev, hi.l2wf, ?_, ?_, ?_, hi.sorted, ?_, ?_, ?_, hi.l2sorted, ?_, hi.startOK, hi.deposits, ?_⟩
+  refine ⟨hi.l2wf, ?_, ?_, ?_, hi.sorted, ?_, ?_, ?_, hi.l2sorted, ?_, hi.startOK, hi.deposits, ?_⟩
   rotate_right 2
   · intro c hc
     obtain ⟨c0, hc0, e⟩ := List.mem_map.mp hc
@@ -1136,7 +1261,7 @@ theorem lastOf (agg : List ACert) : lastOfPS (lastSettled agg) (lastPending agg)
     · simp only [h, if_false]
 
 theorem inv_set_up (s : Sys) (hi : Inv s) (h : SyncUp s.loc s.agg) : Inv { s with up := true } :=
-  ⟨hi.withPrev, hi.l2wf, hi.ids, hi.closedPrefix, hi.chain, hi.sorted, hi.rows, fun _ => h, fun hu => by simp at hu,
+  ⟨hi.l2wf, hi.ids, hi.closedPrefix, hi.chain, hi.sorted, hi.rows, fun _ => h, fun hu => by simp at hu,
     hi.l2sorted, hi.content, hi.startOK, hi.deposits, hi.counts⟩
 
 theorem mem_of_lastRow (loc : List Row) (r : Row) (h : lastRow loc = some r) : r ∈ loc :=
@@ -1220,8 +1345,11 @@ theorem restart_inv (s : Sys) (hi : Inv s) : Inv (restart s).1 := by
       have hcid : certById s1.agg c.id = some c := certById_last s1.agg h1.ids c hg
       have hrow : ∀ n, Matches (rowOfHeader s1.cfg.omitPrev c n) c := by
         intro n
-        rw [h1.withPrev]
-        exact ⟨rfl, rfl, rfl, rfl, rfl, rfl, Or.inl rfl⟩
+        refine ⟨rfl, rfl, rfl, rfl, rfl, ?_, Or.inl rfl⟩
+        unfold rowOfHeader
+        cases s1.cfg.omitPrev
+        · exact Or.inl rfl
+        · exact Or.inr rfl
       have hle' : ∀ n, ∀ x ∈ s1.loc, x.height ≤ (rowOfHeader s1.cfg.omitPrev c n).height := by
         intro n
         intro x hx
@@ -1231,7 +1359,7 @@ theorem restart_inv (s : Sys) (hi : Inv s) : Inv (restart s).1 := by
           have := sorted_le_last s1.loc h1.sorted l hl x hx
           have := hle l hl
           simp only [rowOfHeader]; omega
-      refine ⟨h1.withPrev, h1.l2wf, h1.ids, h1.closedPrefix, h1.chain, saveRow_sorted _ _ h1.sorted, ?_, ?_,
+      refine ⟨h1.l2wf, h1.ids, h1.closedPrefix, h1.chain, saveRow_sorted _ _ h1.sorted, ?_, ?_,
         fun hu => by simp at hu, h1.l2sorted, h1.content, h1.startOK, h1.deposits, h1.counts⟩
       · intro r hr
         rcases mem_saveRow _ _ _ hr with e | hr
@@ -1282,7 +1410,7 @@ theorem step_inv (size : Params → Nat) (s : Sys) (hi : Inv s) (op : Op) (hop :
       simp only [opOK, Bool.and_eq_true, Bool.or_eq_true, decide_eq_true_eq, List.all_eq_true, beq_iff_eq,
         List.isEmpty_iff] at hop
       obtain ⟨⟨⟨⟨hn, hbb⟩, hcb⟩, hst⟩, hids⟩ := hop
-      refine ⟨hi.withPrev, ?_, hi.ids, hi.closedPrefix, hi.chain, hi.sorted, hi.rows, hi.syncUp, hi.syncDown, ?_, ?_,
+      refine ⟨?_, hi.ids, hi.closedPrefix, hi.chain, hi.sorted, hi.rows, hi.syncUp, hi.syncDown, ?_, ?_,
         ?_, ?_, ?_⟩
       · intro x hx
         simp only at hx
@@ -1324,14 +1452,14 @@ theorem step_inv (size : Params → Nat) (s : Sys) (hi : Inv s) (op : Op) (hop :
   | failSub => exact hi.of_eq rfl rfl rfl rfl rfl
   | failRec => exact hi.of_eq rfl rfl rfl rfl rfl
   | crash =>
-    refine ⟨hi.withPrev, hi.l2wf, hi.ids, hi.closedPrefix, hi.chain, hi.sorted, hi.rows, fun h => by simp [step] at h, ?_,
+    refine ⟨hi.l2wf, hi.ids, hi.closedPrefix, hi.chain, hi.sorted, hi.rows, fun h => by simp [step] at h, ?_,
       hi.l2sorted, hi.content, hi.startOK, hi.deposits, hi.counts⟩
     intro _
     by_cases hu : s.up = true
     · exact syncDown_of_up _ _ (hi.syncUp hu)
     · exact hi.syncDown (by simpa using hu)
   | losedb =>
-    refine ⟨hi.withPrev, hi.l2wf, hi.ids, hi.closedPrefix, hi.chain, ?_, ?_, fun h => by simp [step] at h, ?_,
+    refine ⟨hi.l2wf, hi.ids, hi.closedPrefix, hi.chain, ?_, ?_, fun h => by simp [step] at h, ?_,
       hi.l2sorted, hi.content, hi.startOK, hi.deposits, hi.counts⟩
     · simp [step]
     · intro r hr; simp [step] at hr
